@@ -111,6 +111,10 @@ def force_uncertainties(rng, case, dgr=True, dy=True):
         case["dy"], case["common"]["df"] = (np.array(df) * L.deriv(0, 1, case["Q"], x_q, m)).tolist(), df
     else:
         case["dy"], case["common"]["df"] = None, None
+    r_ = case["r"]
+    if case["cutoff"] < r_[min(2, len(r_) - 1)]:      # keep a real low-r region in these coverage cases
+        case["cutoff"] = 0.5 * (r_[len(r_) // 2] + r_[min(len(r_) - 1, len(r_) // 2 + 1)])
+        case["desc"]["cutoff"] = "between"
     case["desc"]["dgr"] = "pos" if dgr else "none"
     case["desc"]["dy"] = "pos" if dy else "none"
     return case
